@@ -1316,6 +1316,166 @@ fn run(case: &QCase, pems: &Pems) -> Outcome {
     }
 }
 
+// ------------------------------------------------------------------------------------------------
+// part "openers": every blocked `open_*_wait` is woken when the peer grants stream credit
+
+#[derive(Debug, Clone, serde::Serialize, serde::Deserialize)]
+struct OpenersCase {
+    iour: bool,
+    /// the peer's initial stream limit
+    limit: u8,
+    /// openers beyond the limit (each its own task = its own waker), blocked in `open_*_wait`
+    blocked: u8,
+    /// the peer raises its limit by that many streams with one call (one MAX_STREAMS frame)
+    raise: u8,
+    bidi: bool,
+    by_client: bool,
+}
+
+fn openers_strategy() -> impl vcore::proptest::strategy::Strategy<Value = OpenersCase> + Clone {
+    use vcore::proptest::prelude::*;
+    (any::<bool>(), 1u8..=3, 2u8..=5, 2u8..=5, any::<bool>(), any::<bool>()).prop_map(|(iour, limit, blocked, raise, bidi, by_client)| OpenersCase { iour, limit, blocked, raise: raise.min(blocked), bidi, by_client })
+}
+
+async fn run_openers_case(case: OpenersCase, pems: &Pems) -> Verdict {
+    let provider = Arc::new(rustls::crypto::ring::default_provider());
+    let leaf = CertificateDer::from_pem_slice(&pems.leaf).expect("leaf pem");
+    let ca = CertificateDer::from_pem_slice(&pems.ca).expect("ca pem");
+    let key = PrivateKeyDer::from_pem_slice(&pems.key).expect("key pem");
+    let scfg = rustls::ServerConfig::builder_with_provider(provider.clone()).with_protocol_versions(&[&rustls::version::TLS13]).expect("tls13").with_no_client_auth().with_single_cert(vec![leaf], key).expect("server cert");
+    let tcfg = || {
+        let mut t = TransportConfig::default();
+        t.max_concurrent_uni_streams(VarInt::from_u32(case.limit as u32));
+        t.max_concurrent_bidi_streams(VarInt::from_u32(case.limit as u32));
+        Arc::new(t)
+    };
+    let mut server_config = ServerBuilder::new_with_rustls_server_config(scfg).build();
+    server_config.transport_config(tcfg());
+    let mut roots = rustls::RootCertStore::empty();
+    roots.add(ca).expect("ca");
+    let ccfg = rustls::ClientConfig::builder_with_provider(provider).with_protocol_versions(&[&rustls::version::TLS13]).expect("tls13").with_root_certificates(roots).with_no_client_auth();
+    let mut client_config = ClientBuilder::new_with_rustls_client_config(ccfg).build();
+    client_config.transport_config(tcfg());
+    let server = match Endpoint::server("127.0.0.1:0", server_config).await {
+        Ok(e) => e,
+        Err(e) => return Verdict::Inconclusive(format!("bind server: {e}")),
+    };
+    let client = match Endpoint::client("127.0.0.1:0").await {
+        Ok(e) => e,
+        Err(e) => return Verdict::Inconclusive(format!("bind client: {e}")),
+    };
+    let server_addr = server.local_addr().expect("addr");
+    let hs = async {
+        let c = async { client.connect(server_addr, "localhost", Some(client_config)).map_err(|e| format!("connect: {e}"))?.await.map_err(|e| format!("client handshake: {e}")) };
+        let s = async {
+            match server.wait_incoming().await {
+                Some(i) => i.await.map_err(|e| format!("server handshake: {e}")),
+                None => Err("wait_incoming yielded None".to_string()),
+            }
+        };
+        let (c, s) = futures_util::future::join(c, s).await;
+        Ok::<_, String>((c?, s?))
+    };
+    let (cc, sc) = match compio_runtime::time::timeout(WATCHDOG, hs).await {
+        Err(_) => return Verdict::Inconclusive("handshake did not finish within the watchdog".into()),
+        Ok(Err(e)) => return Verdict::Inconclusive(format!("handshake: {e}")),
+        Ok(Ok(p)) => p,
+    };
+    let (opener, granter) = if case.by_client { (cc.clone(), sc.clone()) } else { (sc.clone(), cc.clone()) };
+    let opened = Rc::new(Cell::new(0u32));
+    let failed = Rc::new(Cell::new(0u32));
+    let total = case.limit as u32 + case.blocked as u32;
+    let mut tasks = vec![];
+    for _ in 0..total {
+        let (conn, opened, failed, bidi) = (opener.clone(), opened.clone(), failed.clone(), case.bidi);
+        tasks.push(compio_runtime::spawn(async move {
+            // the stream is held open (never finished) for the rest of the case
+            let _held: (SendStream, Option<RecvStream>) = if bidi {
+                match conn.open_bi_wait().await {
+                    Ok((s, r)) => (s, Some(r)),
+                    Err(_) => {
+                        failed.set(failed.get() + 1);
+                        return;
+                    }
+                }
+            } else {
+                match conn.open_uni_wait().await {
+                    Ok(s) => (s, None),
+                    Err(_) => {
+                        failed.set(failed.get() + 1);
+                        return;
+                    }
+                }
+            };
+            opened.set(opened.get() + 1);
+            std::future::pending::<()>().await;
+        }));
+    }
+    let wait_for = |want: u32, limit: Duration| {
+        let opened = opened.clone();
+        async move {
+            let t0 = std::time::Instant::now();
+            while opened.get() < want && t0.elapsed() < limit {
+                compio_runtime::time::sleep(Duration::from_millis(2)).await;
+            }
+            opened.get()
+        }
+    };
+    let first = wait_for(case.limit as u32, Duration::from_secs(10)).await;
+    // let the others reach their blocked state
+    compio_runtime::time::sleep(Duration::from_millis(10)).await;
+    if first != case.limit as u32 || opened.get() != case.limit as u32 || failed.get() != 0 {
+        return Verdict::Inconclusive(format!("{} of {} streams open before the grant ({} failed)", opened.get(), case.limit, failed.get()));
+    }
+    let new_limit = VarInt::from_u32(case.limit as u32 + case.raise as u32);
+    if case.bidi {
+        granter.set_max_concurrent_bi_streams(new_limit);
+    } else {
+        granter.set_max_concurrent_uni_streams(new_limit);
+    }
+    let want = case.limit as u32 + case.raise as u32;
+    let got = wait_for(want, Duration::from_secs(10)).await;
+    let verdict = if got < want {
+        Verdict::Violation(
+            format!("C16/open-wait/credit-granted-but-opener-not-woken/{}", if case.bidi { "bi" } else { "uni" }),
+            format!("the peer raised its stream limit from {} to {want} while {} openers were blocked in open_*_wait, each in its own task; 10 s later only {got} streams are open", case.limit, case.blocked),
+        )
+    } else if opened.get() > want {
+        Verdict::Violation("C16/open-wait/more-streams-than-credit".into(), format!("{} streams open with a limit of {want}", opened.get()))
+    } else {
+        Verdict::Pass { labels: vec![format!("raise:{}", case.raise), format!("blocked:{}", case.blocked), if case.bidi { "bidi".into() } else { "uni".into() }, format!("driver:{}", if case.iour { "io-uring" } else { "poll" })], nontrivial: case.raise >= 2 }
+    };
+    drop(tasks);
+    cc.close(VarInt::from_u32(0), b"c16o");
+    sc.close(VarInt::from_u32(0), b"c16o");
+    drop((opener, granter, cc, sc));
+    if matches!(verdict, Verdict::Pass { .. }) {
+        let down = async {
+            let a = client.shutdown().await;
+            let b = server.shutdown().await;
+            (a, b)
+        };
+        let _ = compio_runtime::time::timeout(WATCHDOG, down).await;
+    }
+    verdict
+}
+
+fn run_openers(case: &OpenersCase, pems: &Pems) -> Outcome {
+    let mut pb = compio_driver::ProactorBuilder::new();
+    pb.driver_type(if case.iour { compio_driver::DriverType::IoUring } else { compio_driver::DriverType::Poll });
+    let rt = match compio_runtime::RuntimeBuilder::new().with_proactor(pb).build() {
+        Ok(rt) => rt,
+        Err(e) => return Outcome::inconclusive(format!("runtime build: {e}")),
+    };
+    let v = rt.block_on(run_openers_case(case.clone(), pems));
+    drop(rt);
+    match v {
+        Verdict::Pass { labels, nontrivial } => Outcome::pass_owned(nontrivial, labels),
+        Verdict::Violation(s, d) => Outcome::violation(s, d),
+        Verdict::Inconclusive(w) => Outcome::inconclusive(w),
+    }
+}
+
 fn main() {
     let mut s = Session::new();
     let dir = s.args.verif_dir.join("fixtures").join("tls");
@@ -1353,6 +1513,24 @@ fn main() {
         "loopback UDP delivers CONNECTION_CLOSE; if it does not, the peer side ends by idle timeout (30 s) and the case is still judged",
         "quinn-proto, rustls are trusted; the check targets compio-quic's driver task and waker bookkeeping",
     ];
+    let pems2 = Pems { ca: pems.ca.clone(), leaf: pems.leaf.clone(), key: pems.key.clone() };
     s.run_part(p, case::strategy(), move |c| run(c, &pems));
+    let mut p = Part::new(
+        "C16",
+        "openers",
+        "case = {driver; stream limit 1-3 on both sides; limit + (2-5) tasks of one side each calling open_uni_wait | open_bi_wait and holding its stream open, so that 2-5 openers are \
+         blocked, every one with its own waker; the peer then raises its limit by 2-5 streams with one set_max_concurrent_*_streams call}. Oracle: limit + raise streams are open \
+         (checked every 2 ms, judged after 10 s), never more than the limit. Non-trivial = the grant covers >= 2 blocked openers.",
+    );
+    p.quick_cases = 40;
+    p.thorough_cases = 800;
+    p.threads = 4;
+    p.max_shrink_iters = 6;
+    p.replay_repeats = 2;
+    p.regressions = vec![("grant-two-to-three-blocked-uni", OpenersCase { iour: true, limit: 1, blocked: 3, raise: 2, bidi: false, by_client: true })];
+    if s.args.shard.0 != 0 {
+        p.regressions.clear();
+    }
+    s.run_part(p, openers_strategy(), move |c| run_openers(c, &pems2));
     s.finish();
 }
